@@ -251,6 +251,7 @@ def run(prop, tier, seed):
                     rep.violation("killer schedule of protection %s (TLC counterexample of OlcArt with the flag FALSE) reproduces on the real code: schedule '%s': OlcTrace cannot explain event %d: %s"
                                   % (flag, hdr.get("sched"), idx + 1, ev[:500]), {"flag": flag, "trace": keep, "schedule": hdr.get("sched")})
             shutil.rmtree(d, ignore_errors=True)
+        shutil.rmtree(olcart.GEN, ignore_errors=True)
     rc = rep.finish()
     vlib.write_evidence(prop, tier, seed, "model_checking", cov,
                         vlib.ASSUME_COMMON + ["preemption bound and scenario catalogue as listed; protected-field segments are atomic in the bounded search (field-granular in the random runs)",
